@@ -87,8 +87,14 @@ def oracle(run, cnt, res, ctx):
     if n - tb > 1:
         liq = sum(ins.trade_costs(e, run.spec["comm"])[1] + ins.trade_costs(e, run.spec["comm"])[2] for e in trades if e["date"] == dates[tb])
         g = 1e-9 * (1 + abs(V[tb]) + ins.gross(root))
-        if not (abs(V[tb + 1] - V[tb]) <= g or (V[tb] - liq - g <= V[tb + 1] <= V[tb] + g)):
+        if not abs(V[tb + 1] - V[tb]) <= g:
             return ("c16_value_jump_after", {"t_b": str(dates[tb]), "value_t_b": V[tb], "value_next": V[tb + 1], "costs_on_t_b": liq})
+    # on t_b itself nothing is held any more: value is cash
+    held_tb = any(abs(m.data["position"].iloc[tb]) > 1e-12 for m in root.members if isinstance(m, SecurityBase))
+    if not held_tb and nested_residual is None:
+        tot_cash = sum(m.data["cash"].iloc[tb] for m in root.members if isinstance(m, StrategyBase))
+        if not abs(V[tb] - tot_cash) <= 1e-9 * (1 + abs(V[tb]) + abs(tot_cash)):
+            return ("c16_value_not_cash_on_bankruptcy_date", {"t_b": str(dates[tb]), "value": V[tb], "cash_in_tree": tot_cash})
     late_calls = [c for c in ctx.calls if c[0] == id(root) and not isinstance(c[1], int) and c[1] > dates[tb]]
     if late_calls:
         return ("c16_algos_after_bankruptcy", {"t_b": str(dates[tb]), "first_late_call": [str(late_calls[0][1]), late_calls[0][2]], "n": len(late_calls)})
